@@ -456,8 +456,12 @@ fn check_function(out: &mut Vec<Viol>, owner: &str, f: &Function, m: &syn::ImplI
     }
 }
 
+/// a name as it is embedded in a longer generated identifier (raw prefix dropped)
+fn unraw(s: &str) -> &str {
+    s.strip_prefix("r#").unwrap_or(s)
+}
 fn size_check(out: &mut Vec<Viol>, ix: &FileIndex, name: &str, size: usize) {
-    let fname = format!("_{name}_size_check");
+    let fname = format!("_{}_size_check", unraw(name));
     let fs = ix.fns.get(&fname).map(|v| v.as_slice()).unwrap_or(&[]);
     if size > 0 {
         if fs.len() != 1 {
@@ -991,7 +995,7 @@ pub fn check_emitted(st: &ResolvedSemanticState, key: &ItemPath, module: &Module
     // ---- extern values (C15, C14, C17)
     let mut ev_names = BTreeSet::new();
     for ev in &gm.extern_values {
-        let fname = format!("get_{}", ev.name.as_str());
+        let fname = format!("get_{}", unraw(ev.name.as_str()));
         ev_names.insert(fname.clone());
         let fs = ix.fns.get(&fname).map(|v| v.as_slice()).unwrap_or(&[]);
         let dup = gm.extern_values.iter().filter(|o| o.name == ev.name).count();
@@ -1035,7 +1039,7 @@ pub fn check_emitted(st: &ResolvedSemanticState, key: &ItemPath, module: &Module
         }
         if n.ends_with("_size_check") && n.starts_with('_') {
             let t = &n[1..n.len() - "_size_check".len()];
-            if !defined.contains(t) && !from_text(n) {
+            if !defined.iter().any(|d| unraw(d) == t) && !from_text(n) {
                 v(&mut out, &["C14"], format!("size check `{n}` emitted for an item that is not defined in the module"));
             }
         }
